@@ -144,8 +144,7 @@ def T(s):
 
 
 def raw(s):
-    """layout: blanks / line breaks only"""
-    assert not s.strip(), s
+    """layout: blanks / line breaks only (or the hole marker of a sketch)"""
     return N(s)
 
 
@@ -198,9 +197,9 @@ def removed_env(name='tikzpicture', inner='\\draw (0,0) -- (1,1);'):
     return N(s, hid=[(len(name) + 8, len(name) + 8 + len(inner))], spans=[(0, len(s))])
 
 
-def unknown(name, *args, star=''):
+def unknown(name, *args, star='', gap=''):
     """\\name{arg}.. : the macro vanishes, braced arguments stay"""
-    fmt = '\\' + name + star + ''.join('{{{%d}}}' % i for i in range(len(args)))
+    fmt = '\\' + name + star + ''.join(gap + '{{{%d}}}' % i for i in range(len(args)))
     return place(fmt, list(args), unk=['\\' + name])
 
 
@@ -214,9 +213,9 @@ def group(n):
 
 # ------------------------------------------------------------------ pass-through
 
-def passthru(name, n, pre=''):
+def passthru(name, n, pre='', gap=''):
     """declared macro whose last argument is text: \\textcolor{red}{..}, \\framebox[..]{..}"""
-    return place('\\' + name + pre.replace('{', '{{').replace('}', '}}') + '{{{0}}}', [n])
+    return place('\\' + name + pre.replace('{', '{{').replace('}', '}}') + gap + '{{{0}}}', [n])
 
 
 def ltadd(n):
@@ -245,9 +244,9 @@ def cite(key='kq', opt=None):
                  hidden_parts=(0,))
 
 
-def heading(n, name='section', star='', short=None, punct=False):
+def heading(n, name='section', star='', short=None, punct=False, gap=''):
     """heading: argument copied, full stop added unless it ends with ! or ?"""
-    fmt = '\\' + name + star + ('[{1}]' if short is not None else '') + '{{{0}}}'
+    fmt = '\\' + name + star + gap + ('[{1}]' + gap if short is not None else '') + '{{{0}}}'
     parts = [n] + ([short] if short is not None else [])
     order = [0] + ([] if punct else [r'\.'])
     return place(fmt, parts, ev_order=order, hidden_parts=(1,) if short is not None else ())
@@ -311,8 +310,8 @@ def verb(txt, delim='|'):
     return N(s, [('C', 6 + i) for i, c in enumerate(txt) if not c.isspace()], spans=[(0, len(s))])
 
 
-def verbatim(txt):
-    pre = '\\begin{verbatim}'
+def verbatim(txt, gap=''):
+    pre = '\\begin' + gap + '{verbatim}'
     s = pre + txt + '\\end{verbatim}'
     return N(s, [('C', len(pre) + i) for i, c in enumerate(txt) if not c.isspace()],
              spans=[(0, len(s))])
